@@ -21,6 +21,7 @@ macro_rules! with_check {
             "C06" => $f::<props::c06::C06>($($arg),*),
             "C09" => $f::<props::c09::C09>($($arg),*),
             "C10" => $f::<props::c10::C10>($($arg),*),
+            "C14" => $f::<props::c14::C14>($($arg),*),
             other => {
                 eprintln!("unknown check {other}");
                 std::process::exit(2);
@@ -178,6 +179,15 @@ fn orchestrate<C: Check>(tier: Tier) -> i32 {
             .join(" | ");
         if code == Some(3) {
             inconclusive.push(format!("shard {shard} hit the watchdog: {stderr_tail}"));
+            continue;
+        }
+        if code == Some(4) && current.exists() {
+            // a check whose property forbids hangs declared one (see props/c14.rs, c15.rs)
+            let dir = runner::found_dir(C::ID);
+            let _ = std::fs::create_dir_all(&dir);
+            let dst = dir.join(format!("hang-shard{shard}-seed{seed}.json"));
+            let _ = std::fs::copy(&current, &dst);
+            violations.push((dst.display().to_string(), format!("operation hung: {stderr_tail}")));
             continue;
         }
         // abnormal termination: try to attribute it to the case that was running
